@@ -33,7 +33,9 @@ FileChoices ==
   { [kind |-> "absent", table |-> {}], [kind |-> "invalid", table |-> {}],
     [kind |-> "valid", table |-> {<<Y3, 111>>}],
     [kind |-> "valid", table |-> {<<Y1, 222>>}],
-    [kind |-> "valid", table |-> {<<Y1, 333>>, <<Y3, 444>>}] }
+    [kind |-> "valid", table |-> {<<Y1, 333>>, <<Y3, 444>>}],
+    \* an exemption of exactly 0 is a configured amount like any other (replacing Y2, adding Y3)
+    [kind |-> "valid", table |-> {<<Y2, 0>>, <<Y3, 0>>}] }
 \* "embedded" amounts are symbolic (-Y): the harness reads them from the repository's data file
 EmbeddedSym == {<<Y1, -Y1>>, <<Y2, -Y2>>}
 LayeringCases == {[cwd |-> c, home |-> h] : c \in FileChoices, h \in FileChoices}
